@@ -10,7 +10,8 @@ use std::io;
 /// kinds served by this module
 pub fn dispatch(kind: u32, v: &Val) -> Option<Val> {
     match kind {
-        1401 => Some(run_search(v)),
+        1401 => Some(run_search(v, false)),
+        1404 => Some(run_search(v, true)),
         _ => None,
     }
 }
@@ -90,7 +91,9 @@ pub fn dec_mode(m: &Val, b: &Val) -> BinaryDetection {
 /// case: (mode byte strategy capacity alloc hist stream needles invert passthru stop bin_reply sniff_cap
 ///        max_matches path npre)
 /// result: (events outcome standard_out count_out files_with_matches_out files_without_match_out)
-fn run_search(v: &Val) -> Val {
+/// kind 1404 (`ctx`): four more fields (before after stop_on_nonmatch sniff): context options and the bound on
+/// the prefix a slice strategy examines up front (hook `verif_sniff_capacity`)
+fn run_search(v: &Val, ctx: bool) -> Val {
     let mode = dec_mode(v.fld(0), v.fld(1));
     let strategy = v.fld(2).us();
     let capacity = v.fld(3).us();
@@ -107,6 +110,8 @@ fn run_search(v: &Val) -> Val {
     let max_matches = v.fld(13).opt().map(|x| x.n() as u64);
     let path: Option<Vec<u8>> = v.fld(14).opt().map(|x| x.bytes());
     let pterm: Option<u8> = if v.fld(16).b() { Some(0) } else { None };
+    let (before, after, stop_on_nonmatch, sniff) =
+        if ctx { (v.fld(17).us(), v.fld(18).us(), v.fld(19).b(), Some(v.fld(20).us())) } else { (0, 0, false, None) };
 
     // strategy 0 roll buffer, 1 slice; 2 / 3: multi-line search (pattern `\n`) of the slice / of a reader
     let ml = strategy >= 2;
@@ -126,6 +131,10 @@ fn run_search(v: &Val) -> Val {
             .binary_detection(mode.clone())
             .bom_sniffing(false)
             .heap_limit(alloc.map(|l| default_cap + l))
+            .before_context(before)
+            .after_context(after)
+            .stop_on_nonmatch(stop_on_nonmatch)
+            .verif_sniff_capacity(sniff)
             .verif_buffer_capacity(Some(capacity));
         sb.build()
     };
